@@ -23,7 +23,7 @@ CHECKS = {
          "DESIGN.md 5 C04"),
  "C05": ("generated (truth, reference) pairs against the independent CPR encoder: in-range round trip within 10 m, and a half-zone validity predicate for arbitrary finite references",
          "In-range references (random bearing, up to 0.95 of 180 NM / 45 NM, r = 1 boosted) must give the true position modulo 360 for airborne and surface reports of both parities; arbitrary references (huge, denormal, zone edges, poles, antimeridian) must give nothing or a position within half a zone of the reference with latitude in range.",
-         "Trusted: as C04. Cases beyond 0.95 half-zones in one coordinate (high latitudes) are physically ambiguous and excluded (counted).",
+         "Trusted: as C04. Cases beyond 0.999 half-zones in one coordinate where there is more than one zone (high latitudes) are physically ambiguous and excluded (counted).",
          "DESIGN.md 5 C05"),
  "C06": ("stateful history generation (proptest vec of plans, shrinking) through decode_positions; oracle: every attached position within 25 m of the encoded one + metamorphic non-interference (aircraft alone vs interleaved, bit-identical)",
          "Histories of 1-4 aircraft with generated flight plans, loss levels, duplicates, neighbour swaps, gaps straddling the 10 s and 180 s windows, landings, take-offs and the adversarial 'one surface zone away after a long gap' family are encoded by the independent encoder and decoded by the real batch driver.",
